@@ -407,7 +407,7 @@ def sys_case(rng, cid, steps=None, nprog=None, big=False, script=None, mode=None
         for _ in range(nsteps):
             script.append(rng.weighted([("nothing", 6), ("edit-src", 3), ("edit-inc", 3), ("touch-inh", 2), ("touch-src", 2),
                                         ("touch-inc", 1), ("simul-restart", 2), ("restart", 1), ("equal-inc", 1),
-                                        ("simul-norestart", 1), ("edit-parent-inc", 2), ("damage", 2)]))
+                                        ("simul-norestart", 1), ("edit-parent-inc", 2), ("damage", 2), ("foreign", 2), ("moved", 1)]))
     for act in script:
         t += 1
         if act == "edit-src":
@@ -445,6 +445,16 @@ def sys_case(rng, cid, steps=None, nprog=None, big=False, script=None, mode=None
                 else:
                     L.append("corrupt %s flip %d %d" % (fam.path(i), rng.below(1000) if rng.chance(2, 3) else rng.below(60),
                                                          rng.choice([1, 2, 4, 8, 16, 32, 64, 128, 255])))
+        elif act == "foreign":
+            # a binary written by another driver build (magic / driver_id) or under another configuration
+            saved = [i for i in range(len(fam.progs)) if fam.progs[i]["save"]]
+            if saved:
+                L.append("foreign %s %s" % (fam.path(rng.choice(saved)), rng.choice(["magic", "driver", "config"])))
+        elif act == "moved":
+            saved = [i for i in range(len(fam.progs)) if fam.progs[i]["save"]]
+            if len(saved) >= 2:
+                a, b = rng.shuffle(saved)[:2]
+                L.append("copybin %s %s" % (fam.path(a), fam.path(b)))
         elif act == "edit-parent-inc":
             # a header that a parent includes and the top does not (if there is one)
             cand = [nm for i in range(1, len(fam.progs)) for nm in fam.progs[i]["inc"] if nm not in fam.progs[0]["inc"]]
@@ -505,6 +515,11 @@ def boundary():
         c = sys_case(E.Rng(7000 + k), "d%d" % k, nprog=2, script=["damage", "nothing", "damage"], mode=["reloadp", "reload"][k % 2])
         c.id = "b-sys-damage-%d" % k
         B.append(c)
+    for k, script in enumerate([["foreign"], ["foreign", "foreign"], ["moved"], ["moved", "nothing"]]):
+        for seed in (7100, 7101, 7102):
+            c = sys_case(E.Rng(seed + 10 * k), "f%d_%d" % (k, seed), nprog=3, script=script, mode=["reloadp", "reload"][seed % 2])
+            c.id = "b-sys-%d-%d-" % (k, seed) + "-".join(script)
+            B.append(c)
     # pragma positions (top / between functions / end / in an include / toggled), same process and new process
     for k in range(12):
         c = sys_case(E.Rng(6000 + k), "q%d" % k, nprog=2, script=["nothing", "nothing"], mode=["reloadp", "reload"][k % 2])
